@@ -309,17 +309,104 @@ func libraryServer(c *core.Ctx, r *core.Rand, i int) {
 	}
 }
 
+// arbitraryLists: a server answering discovery with ANY list: duplicates, versions the library does not know
+// (0.9, 1.5, 2.0, 2.1, 3.0), any order, any length; also failure reasons other than "operation not supported".
+func arbitraryLists(c *core.Ctx, r *core.Rand, i int) {
+	C := subset(1 + r.Intn(31))
+	pool := append(append([]kmip.ProtocolVersion{}, all...), kmip.ProtocolVersion{ProtocolVersionMajor: 0, ProtocolVersionMinor: 9}, kmip.ProtocolVersion{ProtocolVersionMajor: 1, ProtocolVersionMinor: 5},
+		kmip.ProtocolVersion{ProtocolVersionMajor: 2, ProtocolVersionMinor: 0}, kmip.ProtocolVersion{ProtocolVersionMajor: 2, ProtocolVersionMinor: 1}, kmip.ProtocolVersion{ProtocolVersionMajor: 3, ProtocolVersionMinor: 0})
+	n := r.Intn(9)
+	list := make([]kmip.ProtocolVersion, n)
+	for k := range list {
+		list[k] = pool[r.Intn(len(pool))]
+		if k > 0 && r.P(1, 4) {
+			list[k] = list[r.Intn(k)] // duplicate
+		}
+	}
+	mode := r.Intn(8) // 0: discovery fails with another reason than "not supported"; else: the list
+	reasons := []kmip.ResultReason{kmip.ResultReasonGeneralFailure, kmip.ResultReasonPermissionDenied, kmip.ResultReasonInvalidMessage, kmip.ResultReasonFeatureNotSupported}
+	reason := reasons[r.Intn(len(reasons))]
+	srv := script.NewServer(func(rx script.Received, conn *memnet.Conn) *kmip.ResponseMessage {
+		if rx.Msg.BatchItem[0].Operation != kmip.OperationDiscoverVersions {
+			return script.OK(rx.Msg, func(int, *kmip.RequestBatchItem) kmip.OperationPayload {
+				return &payloads.ActivateResponsePayload{UniqueIdentifier: "x"}
+			})
+		}
+		if mode == 0 {
+			resp := script.OK(rx.Msg, func(int, *kmip.RequestBatchItem) kmip.OperationPayload { return nil })
+			resp.BatchItem[0].ResultStatus = kmip.ResultStatusOperationFailed
+			resp.BatchItem[0].ResultReason = reason
+			resp.BatchItem[0].ResultMessage = "no"
+			return resp
+		}
+		return script.OK(rx.Msg, func(int, *kmip.RequestBatchItem) kmip.OperationPayload {
+			return &payloads.DiscoverVersionsResponsePayload{ProtocolVersion: list}
+		})
+	})
+	defer srv.Close()
+	label := fmt.Sprintf("client=%s server-list=%s", fmtSet(C), fmtSet(list))
+	if mode == 0 {
+		label = fmt.Sprintf("client=%s discovery-fails-with-reason-%d", fmtSet(C), reason)
+	}
+	cluster := r.Bool()
+	o, ok := dialAndUse(c, func(context.Context) (net.Conn, error) { return srv.L.Dial() }, []kmipclient.Option{kmipclient.WithKmipVersions(C...)}, label, cluster)
+	if !ok {
+		return
+	}
+	c.Count("dials", 1)
+	c.Count("dials.arbitrary-lists", 1)
+	c.Distinct(core.Hash64(label))
+	fail := func(cls, what string) {
+		c.Violation("C13:"+cls+":arbitrary-list", what+" ("+label+")", map[string]any{"adopted": o.adopted.String(), "dial_error": fmt.Sprint(o.dialErr)})
+	}
+	if mode == 0 {
+		// discovery failed for another reason than "the server does not support discovery": the property gives the client
+		// no licence to fall back; whatever it adopts must at least be a member of its configured set
+		if o.dialErr == nil && !has(C, o.adopted) {
+			fail("outside-configured-set", fmt.Sprintf("adopted %v which is not in the client's configured set", o.adopted))
+		}
+		c.Count("arbitrary.discovery-failed", 1)
+		return
+	}
+	want, wantOK := highestCommon(C, list)
+	if !wantOK {
+		c.Count("expected_failures", 1)
+		if o.dialErr == nil {
+			fail("connects-without-common-version", fmt.Sprintf("Dial succeeds and adopts %v although no listed version is in the configured set", o.adopted))
+		}
+		return
+	}
+	if o.dialErr != nil {
+		fail("dial-fails", fmt.Sprintf("Dial fails (%v) although %v is common", o.dialErr, want))
+		return
+	}
+	if o.adopted != want {
+		fail("wrong-version", fmt.Sprintf("adopted %v, the highest common version is %v", o.adopted, want))
+	}
+	for _, rx := range srv.Received() {
+		if rx.Msg.BatchItem[0].Operation != kmip.OperationDiscoverVersions && rx.Msg.Header.ProtocolVersion != o.adopted {
+			fail("request-carries-other-version", fmt.Sprintf("a request after Dial carries version %v, adopted was %v", rx.Msg.Header.ProtocolVersion, o.adopted))
+		}
+	}
+}
+
 func Spec() *core.Spec {
 	slog.SetDefault(slog.New(slog.NewTextHandler(io.Discard, nil)))
 	return &core.Spec{
 		ID:    "C13",
 		Level: "exploration",
 		Rule: "exhaustive: 31 non-empty client subsets x 32 server subsets of {1.0..1.4} x server behaviour {conformant, discovery unsupported, lists versions not offered, unordered list, empty list} x {enforced, not enforced} against a scripted server that records every request header " +
-			"(two requests and one cloned client after each Dial; client options given in seeded order with duplicates), plus 31 x 31 against the library's own executor restricted with SetSupportedProtocolVersions; compared with a 10-line reference function. every scripted case through Dial and through DialCluster; distinct = distinct configurations",
-		Required: []string{"dials.conformant", "dials.discovery-unsupported", "dials.lists-not-offered", "dials.unordered", "dials.empty-list", "dials.library-server", "dials.cluster", "expected_failures", "followup_headers"},
+			"(two requests and one cloned client after each Dial; client options given in seeded order with duplicates), plus 31 x 31 against the library's own executor restricted with SetSupportedProtocolVersions; compared with a 10-line reference function. every scripted case through Dial and through DialCluster; seeded arbitrary server lists (duplicates, versions unknown to the library, any order/length) and discovery failing with other reasons; distinct = distinct configurations",
+		Required: []string{"dials.conformant", "dials.discovery-unsupported", "dials.lists-not-offered", "dials.unordered", "dials.empty-list", "dials.library-server", "dials.cluster", "dials.arbitrary-lists", "arbitrary.discovery-failed", "expected_failures", "followup_headers"},
 		Families: []core.Family{
 			{Name: "scripted", Exhaustive: true, N: func(string) int { return 31 * 32 * 5 * 2 * 2 }, Run: scripted},
 			{Name: "library-server", Exhaustive: true, N: func(string) int { return 31 * 31 }, Run: libraryServer},
+			{Name: "arbitrary-lists", N: func(tier string) int {
+				if tier == core.Thorough {
+					return 400000
+				}
+				return 4000
+			}, Run: arbitraryLists},
 		},
 	}
 }
